@@ -47,7 +47,7 @@ TIERS = {
 }
 REACH_PROBES = ["cancel_while_subscribed", "timeout_fired", "time_trigger_fired", "event_returned", "state_returned",
                 "mqtt_returned", "webhook_returned", "none_returned", "filter_raised", "occurrence_before_call",
-                "hold_in_wait", "timeout_zero", "immediate_check_now"]
+                "hold_in_wait", "timeout_zero", "immediate_check_now", "second_waiter_woke_on_same_occurrence"]
 SHRINK_LISTS = [["ops"], ["spec", "conds"]]
 GRID = 0.25
 EXPR = "pyscript.v == '1'"
@@ -94,7 +94,9 @@ def gen(rng: random.Random, tier: str) -> dict:
             ops.append({"k": k, "kind": "webhook", "id": "hook_w", "payload": data})
         else:
             ops.append({"k": k, "kind": "stall", "s": 0.02})
-    spec = {"conds": conds, "timeout": timeout}
+    # a second task that sits in its own wait_until on the same event type / topic / webhook id the whole time and
+    # scribbles over the dictionary it is handed: what one waiter does with its result is not the other's business
+    spec = {"conds": conds, "timeout": timeout, "buddy": rng.random() < 0.4}
     fault = {"mode": "enumerate", "via": rng.choice(["reaper", "raw"]), "iter": None}
     return {"cfg": cfg, "spec": spec, "fault": fault, "ops": ops, "max_points": TIERS[tier]["max_points"]}
 
@@ -146,6 +148,17 @@ def render(scn: dict) -> dict:
         "        sim.mark('w', 'exc', name=type(exc).__name__)",
         "",
     ]
+    if scn["spec"].get("buddy"):
+        lines += [
+            "@time_trigger('startup')",
+            "def buddy():",
+            "    while True:",
+            "        got = task.wait_until(event_trigger='ev_w', mqtt_trigger='t/w', webhook_trigger='hook_w')",
+            "        got.clear()",
+            "        got['scribbled'] = True",
+            "        sim.mark('buddy', 'woke')",
+            "",
+        ]
     return {"pyscript/c15.py": "\n".join(lines) + "\n"}
 
 
@@ -159,6 +172,10 @@ def simplify(scn: dict):
     if scn["spec"]["timeout"] is not None:
         cand = copy.deepcopy(scn)
         cand["spec"]["timeout"] = None
+        yield cand
+    if scn["spec"].get("buddy"):
+        cand = copy.deepcopy(scn)
+        cand["spec"]["buddy"] = False
         yield cand
     for ci, cond in enumerate(scn["spec"]["conds"]):
         for key in ("hold", "hold_false", "check_now", "filter"):
@@ -415,6 +432,9 @@ def _outcome(scn: dict, obs: dict, rets: list, excs: list, kinds: list, dev: fro
                     f"{exp[0][1]} at +{exp[0][0] - obs['t0']:.3f}s"))
         return out
     got = rets[0]
+    if not dev and scn["spec"].get("buddy") and any(
+            m["args"][:2] == ["buddy", "woke"] and abs(m["vt"] - got["vt"]) < 0.05 for m in w.marks):
+        w.probe("second_waiter_woke_on_same_occurrence")
     got_kw = {k: v for k, v in got["kw"].items() if k != "context"}
     tt = got_kw.get("trigger_type")
     match = next((cand for cand in exp if cand[1] == tt), None)
